@@ -68,7 +68,7 @@ def moment_laws(chk, ctx, rng, n):
 
 # ---------------------------------------------------------------- B/C: coalescent convergence
 _EQ = {}
-def sfs_model(dadi, n, epochs, pts_l, tf, log=False, as_func=False, gamma=0.0, h=0.5):
+def sfs_model(dadi, n, epochs, pts_l, tf, log=False, as_func=False, gamma=0.0, h=0.5, abs_axis=False):
     I = dadi.Integration
     def f(params, ns, pts):
         xx = dadi.Numerics.default_grid(pts)
@@ -78,11 +78,17 @@ def sfs_model(dadi, n, epochs, pts_l, tf, log=False, as_func=False, gamma=0.0, h
         if key not in _EQ:
             _EQ[key] = dadi.PhiManip.phi_1D(xx, gamma=gamma, h=h)
         phi = _EQ[key]
+        t0 = 0.0
         for nu, T in epochs:
+            # abs_axis: the history is run on ONE absolute time axis (epoch k from initial_t = its start to T = its end), the other
+            # documented way of chaining epochs; the epoch lengths are the same numbers
+            kw = dict(initial_t=t0) if abs_axis else {}
+            Tend = t0 + T if abs_axis else T
             if as_func:
-                phi = I.one_pop(phi, xx, T, (lambda t, v=nu: v), gamma=gamma, h=h)
+                phi = I.one_pop(phi, xx, Tend, (lambda t, v=nu: v), gamma=gamma, h=h, **kw)
             else:
-                phi = I.one_pop(phi, xx, T, nu, gamma=gamma, h=h)
+                phi = I.one_pop(phi, xx, Tend, nu, gamma=gamma, h=h, **kw)
+            if abs_axis: t0 = Tend
         return dadi.Spectrum.from_phi(phi, ns, (xx,))
     F = dadi.Numerics.make_extrap_log_func(f) if log else dadi.Numerics.make_extrap_func(f)
     with TF(I, tf):
@@ -209,16 +215,16 @@ def draw_library_case(rng, name, pattern, cap):
             return S, X
     return None
 
-def coalescent_case(chk, dadi, n, ep, pts, log, as_func, lib=None):
+def coalescent_case(chk, dadi, n, ep, pts, log, as_func, lib=None, abs_axis=False):
     """one history against the exact coalescent expectation at a tenth of the default step.  lib = None: the history `ep` is built from
     direct one_pop calls (sfs_model); lib = dict(model, sizes, times): the library's model function is run."""
     L = len(pts)
     tf = 1e-4
     if lib is None:
         th = coalescent_sfs(n, ep)
-        inp = dict(n=n, epochs=ep, pts=pts, log=log, as_func=as_func)
+        inp = dict(n=n, epochs=ep, pts=pts, log=log, as_func=as_func, abs_axis=abs_axis)
         key = 'coalescent:%s:%s:grids=%d' % ('log' if log else 'lin', 'func' if as_func else 'const', L)
-        run_it = lambda f, p=pts: sfs_model(dadi, n, ep, p, f, log=log, as_func=as_func)
+        run_it = lambda f, p=pts: sfs_model(dadi, n, ep, p, f, log=log, as_func=as_func, abs_axis=abs_axis)
         known_key = key
         where = 'one_pop history'
     else:
@@ -328,7 +334,7 @@ def coalescent_convergence(chk, ctx, rng, n_cases, tier):
         L = [3, 1, 2, 4, 3, 6, 5, 1][(it + it // 8) % 8]
         pts = grid_list(n, L)
         log = bool(it % 2); as_func = bool((it // 2) % 2)
-        worst = max(worst, coalescent_case(chk, dadi, n, ep, pts, log, as_func))
+        worst = max(worst, coalescent_case(chk, dadi, n, ep, pts, log, as_func, abs_axis=bool(it % 3 == 1)))
     chk.stats['coalescent_worst_rel_err'] = worst
 
 def special_histories(chk, ctx, rng, tier):
@@ -346,7 +352,7 @@ def special_histories(chk, ctx, rng, tier):
                     ep = special_history(rng, kind)
                 pts = grid_list(n, [3, 2, 4, 1, 5, 6][it % 6]); it += 1
                 chk.stat('special_history:' + kind)
-                worst = max(worst, coalescent_case(chk, dadi, n, ep, pts, bool((it // 2) % 2), as_func))
+                worst = max(worst, coalescent_case(chk, dadi, n, ep, pts, bool((it // 2) % 2), as_func, abs_axis=bool(it % 3 == 0)))
     chk.stats['special_history_worst_rel_err'] = worst
 
 def library_models(chk, ctx, rng, tier):
@@ -700,6 +706,6 @@ def replay(chk, ctx, data):
         coalescent_case(chk, ctx['dadi'], int(inp['n']), None, list(inp['pts']), bool(inp['log']), False,
                         lib=dict(model=inp['model'], sizes=[float(v) for v in inp['sizes']], times=[float(v) for v in inp['times']]))
     elif str(data.get('key', '')).startswith('coalescent:') and 'epochs' in inp:
-        coalescent_case(chk, ctx['dadi'], int(inp['n']), [tuple(e) for e in inp['epochs']], list(inp['pts']), bool(inp['log']), bool(inp['as_func']))
+        coalescent_case(chk, ctx['dadi'], int(inp['n']), [tuple(e) for e in inp['epochs']], list(inp['pts']), bool(inp['log']), bool(inp['as_func']), abs_axis=bool(inp.get('abs_axis', False)))
     else:
         run(chk, ctx)
